@@ -368,3 +368,223 @@ func allocsOf(fn *ssa.Function, typ string) []*ssa.Alloc {
 }
 
 var _ = fmt.Sprint
+
+// ruleSuccessAfterACK (C20): the waiter of a post-handshake command (UpdateKeys among them) is told
+// "success" only where the flight that carried the command is completed by an acknowledgement.
+// Every call of the completion with an error value that may be nil is either (a) in a function
+// whose every call site takes its flight from the result of applyACK, or (b) the completion of an
+// application-data command with the result of its own write. Everywhere else (start of a command,
+// cancellation, failure of the whole machine) the value handed over is provably non-nil.
+func ruleSuccessAfterACK(c *Ctx, r *Report) {
+	const rule = "success-after-ack"
+	sites := c.CallsTo(func(n string) bool { return strings.HasSuffix(n, "postHandshakeCompletion).complete") })
+	n := 0
+	for _, s := range sites {
+		call, ok := s.Call.(*ssa.Call)
+		if !ok || len(call.Call.Args) < 2 {
+			continue
+		}
+		n++
+		fn := s.Fn
+		root := fn
+		for root.Parent() != nil {
+			root = root.Parent()
+		}
+		r.Sites += len(fn.Blocks)
+		arg := call.Call.Args[1]
+		// can the value be nil here? explored from the entry of the function, helpers followed
+		mayNil, reached := false, false
+		w := &Walk{Fn: fn, Follow: followSamePkg(fn)}
+		w.VisitRaw = func(in ssa.Instruction, env Env, raw map[*ssa.Phi]ssa.Value) bool {
+			if in == ssa.Instruction(call) {
+				reached = true
+				v := w.eval(resolvePhis(arg, raw), env)
+				if !(v.Kind == 2 && !v.B) {
+					mayNil = true
+				}
+			}
+			return true
+		}
+		w.FromEntry()
+		key := fmt.Sprintf("%s:%s", short(fn), shapeOf(call.Call.Args[0], 0))
+		if !reached {
+			r.Unk(rule, key, c.ipos(call), "completion site not reached by the exploration")
+			continue
+		}
+		// a parameter handed through: decided at the call sites of the function (two levels)
+		if mayNil {
+			if p, isP := arg.(*ssa.Parameter); isP && p.Parent() == fn {
+				if nonNilAtCallers(c, fn, paramIndex(p), 0) {
+					mayNil = false
+				}
+			}
+		}
+		if !mayNil {
+			r.OK(rule, key, c.ipos(call), "the value handed to the waiter is never nil here (a failure is reported)")
+			continue
+		}
+		// (b) application data: the result of the command's own write
+		fromWrite := anyLeaf(c.Origins(arg, 0), func(l ssa.Value) bool {
+			cl, ok := l.(*ssa.Call)
+			if !ok || cl.Call.IsInvoke() || cl.Call.StaticCallee() != nil {
+				return false
+			}
+			_, f, _, okF := fieldLoad(cl.Call.Value)
+			return okF && f == "Write"
+		})
+		if fromWrite {
+			r.OK(rule, key, c.ipos(call), "application data: completed with the result of its own write")
+			continue
+		}
+		// (a) every call site of the function takes its flight from applyACK's result
+		ackDriven := false
+		if callers, closed := c.staticCallers(root); closed && len(callers) > 0 {
+			ackDriven = true
+			for _, cs := range callers {
+				okSite := false
+				for _, a := range cs.Call.Common().Args {
+					if valueFromCall(c, a, func(nm string) bool { return strings.HasSuffix(nm, "postHandshake).applyACK") }, 0) {
+						okSite = true
+					}
+				}
+				if !okSite {
+					ackDriven = false
+				}
+			}
+		}
+		r.Check(ackDriven, rule, key, c.ipos(call), "possibly-nil completion only where an acknowledgement completed the flight", "a post-handshake command (UpdateKeys) can be reported successful from "+short(fn)+", which is not driven by an acknowledgement: the caller is told the peer has the new keys before any ACK arrived")
+	}
+	r.Floor(rule, n, 5)
+}
+
+// valueFromCall: v is (an element of) the result of a call matching pred.
+func valueFromCall(c *Ctx, v ssa.Value, pred func(string) bool, d int) bool {
+	if d > 6 {
+		return false
+	}
+	for _, l := range c.Origins(v, 0) {
+		if isCallResult(l, pred) {
+			return true
+		}
+		switch x := l.(type) {
+		case *ssa.UnOp:
+			if ia, ok := x.X.(*ssa.IndexAddr); ok && valueFromCall(c, ia.X, pred, d+1) {
+				return true
+			}
+		case *ssa.Index:
+			if valueFromCall(c, x.X, pred, d+1) {
+				return true
+			}
+		case *ssa.Extract:
+			if nx, ok := x.Tuple.(*ssa.Next); ok {
+				if rg, ok := nx.Iter.(*ssa.Range); ok && valueFromCall(c, rg.X, pred, d+1) {
+					return true
+				}
+			}
+		}
+	}
+	return false
+}
+
+// nonNilAtCallers: every static call site of fn (closed world) passes a value that is provably
+// non-nil at that site as argument idx.
+func nonNilAtCallers(c *Ctx, fn *ssa.Function, idx, depth int) bool {
+	callers, closed := c.staticCallers(fn)
+	if !closed || len(callers) == 0 || idx < 0 || depth > 2 {
+		return false
+	}
+	for _, cs := range callers {
+		ci, ok := cs.Call.(ssa.Instruction)
+		args := cs.Call.Common().Args
+		if !ok || idx >= len(args) {
+			return false
+		}
+		host := cs.Fn
+		good, reached := true, false
+		w := &Walk{Fn: host, Follow: followSamePkg(host)}
+		w.VisitRaw = func(in ssa.Instruction, env Env, raw map[*ssa.Phi]ssa.Value) bool {
+			if in == ci {
+				reached = true
+				v := w.eval(resolvePhis(args[idx], raw), env)
+				if !(v.Kind == 2 && !v.B) {
+					good = false
+				}
+			}
+			return true
+		}
+		w.FromEntry()
+		if !reached {
+			return false
+		}
+		if !good {
+			if p, isP := args[idx].(*ssa.Parameter); isP && p.Parent() == host && nonNilAtCallers(c, host, paramIndex(p), depth+1) {
+				continue
+			}
+			return false
+		}
+	}
+	return true
+}
+
+// ruleOneReliableFlight (C20): reliable post-handshake messages (KeyUpdate, NewSessionTicket) use
+// one outbound flight at a time: with a flight outstanding, the queue does not start another
+// reliable command of any kind (only application data may follow). Otherwise a KeyUpdate can be
+// acknowledged and committed while an earlier message of the same sequence space is still missing
+// at the peer, and an older flight is retransmitted under its old epoch after the new one is in use.
+func ruleOneReliableFlight(c *Ctx, r *Report) {
+	const rule = "one-reliable-flight"
+	fn := c.need(r, rule, "(*"+pkgHS+".postHandshake).startQueuedPostHandshake")
+	if fn == nil {
+		return
+	}
+	kinds := c.enumConsts(pkgHS, "postHandshakeCommandKind")
+	starters := map[string]string{"commandSendKeyUpdate": "startKeyUpdate", "commandSendNewSessionTicket": "startNewSessionTicket"}
+	r.Sites += len(fn.Blocks)
+	n := 0
+	for _, kname := range sortedKeys(starters) {
+		kv, ok := kinds[kname]
+		if !ok {
+			r.Unk(rule, kname, "", "command kind constant not found")
+			continue
+		}
+		for _, outstanding := range []int64{0, 1} {
+			out := outstanding
+			w := &Walk{Fn: fn, Follow: followSamePkg(fn), FollowDeferring: true, Assume: func(v ssa.Value) (Val, bool) {
+				if _, f, _, ok := fieldLoad(v); ok && f == "Kind" && strings.HasSuffix(namedOrType(v.Type()), "postHandshakeCommandKind") {
+					return vInt(kv), true
+				}
+				if call, ok := v.(*ssa.Call); ok {
+					if b, isB := call.Call.Value.(*ssa.Builtin); isB && b.Name() == "len" && len(call.Call.Args) == 1 {
+						if _, f, _, okF := fieldLoad(call.Call.Args[0]); okF && f == "flights" {
+							return vInt(out), true
+						}
+					}
+				}
+				return unknown, false
+			}}
+			w.FromEntry()
+			started := false
+			var at ssa.Instruction
+			for in := range w.Reached {
+				if cl, ok := in.(*ssa.Call); ok && strings.HasSuffix(calleeName(&cl.Call), "postHandshake)."+starters[kname]) {
+					started = true
+					if at == nil || in.Pos() < at.Pos() {
+						at = in
+					}
+				}
+			}
+			n++
+			key := fmt.Sprintf("%s:%s:outstanding=%d", short(fn), kname, out)
+			if out == 0 {
+				r.Check(started, rule, key, c.pos(fn.Pos()), "with no flight outstanding the command is started", "with no flight outstanding "+kname+" is never started (rule no longer matches the code)")
+				continue
+			}
+			pos := c.pos(fn.Pos())
+			if at != nil {
+				pos = c.ipos(at)
+			}
+			r.Check(!started, rule, key, pos, "with a flight outstanding the command stays queued", "with another reliable flight still unacknowledged the queue starts "+kname+": two reliable post-handshake flights are in the air at once")
+		}
+	}
+	r.Floor(rule, n, 4)
+}
